@@ -13,15 +13,15 @@ import (
 
 func init() {
 	register(&Property{
-		ID:        "C13",
-		Title:     "Stored values and compound keys round-trip",
-		Technique: "static analysis: writer/reader table extraction from SSA constants (tag byte, payload width, codec, byte order) with per-tag partial evaluation of the reader dispatch; dominance of every bolt write in checker-taking setters by ProceedWithSet(name, checker); structural checks of the nil encoding, the compound-key codec bounds and the list rewrite order",
-		LevelText: "Decides agreement of what the code itself embodies: for every fixed-width type tag the setter's tag byte, payload width, integer codec and byte order equal what every reader reached under that tag requires; every write in a field-checker-taking setter happens only under ProceedWithSet with the method's own name and checker (and PersistContext forwards its own checker); null is encoded as the single TypeNil byte and decoded distinctly from the empty string; the compound-key encoder and decoder use the matching varint primitives, the same bound and in-bounds slices; string lists are emptied before being rewritten. Value equality for arbitrary payloads (special floats, time zones, nested containers) rests on the standard library codecs and is not decided.",
-		LevelNote: "Trusted: go/types, x/tools SSA, encoding/binary, time.MarshalBinary/UnmarshalBinary, bbolt.",
-		DesignRef: "DESIGN.md C13",
+		ID:          "C13",
+		Title:       "Stored values and compound keys round-trip",
+		Technique:   "static analysis: writer/reader table extraction from SSA constants (tag byte, payload width, codec, byte order) with per-tag partial evaluation of the reader dispatch; dominance of every bolt write in checker-taking setters by ProceedWithSet(name, checker); structural checks of the nil encoding, the compound-key codec bounds and the list rewrite order",
+		LevelText:   "Decides agreement of what the code itself embodies: for every fixed-width type tag the setter's tag byte, payload width, integer codec and byte order equal what every reader reached under that tag requires; every write in a field-checker-taking setter happens only under ProceedWithSet with the method's own name and checker (and PersistContext forwards its own checker); null is encoded as the single TypeNil byte and decoded distinctly from the empty string; the compound-key encoder and decoder use the matching varint primitives, the same bound and in-bounds slices; string lists are emptied before being rewritten. Value equality for arbitrary payloads (special floats, time zones, nested containers) rests on the standard library codecs and is not decided.",
+		LevelNote:   "Trusted: go/types, x/tools SSA, encoding/binary, time.MarshalBinary/UnmarshalBinary, bbolt.",
+		DesignRef:   "DESIGN.md C13",
 		Explanation: "Writer rows: every function that builds a make([]byte,N) buffer with a constant tag in byte 0. Reader rows: every BytesTo* style function with a length guard and a binary codec call. Dispatch: each FieldType-switching function is partially evaluated for each of the 7 tag constants.",
-		Trusted:   []string{"go/types", "golang.org/x/tools/go/ssa v0.29.0", "encoding/binary", "time binary marshalling"},
-		Rules:     rulesC13,
+		Trusted:     []string{"go/types", "golang.org/x/tools/go/ssa v0.29.0", "encoding/binary", "time binary marshalling"},
+		Rules:       rulesC13,
 		Controls: []controlExpect{
 			{"C13.CHECKER", "zzControlBad_C13", true},
 			{"C13.CHECKER", "zzControlGood_C13", false},
@@ -35,6 +35,64 @@ func rulesC13(c *Ctx) {
 	ruleC13Nil(c)
 	ruleC13Codec(c)
 	ruleC13List(c)
+	ruleC13ListMark(c)
+	ruleProceedTable(c, "C13.PROCEED")
+}
+
+// ruleC13ListMark: PutList always writes the size marker (also for an empty list) and the reader
+// recognises a list by the PRESENCE of that marker, not by its value.
+func ruleC13ListMark(c *Ctx) {
+	p := c.P
+	marker := constStr(p, "ListSizeKeyName")
+	hasMarkerArg := func(call ssa.CallInstruction) bool {
+		for _, a := range call.Common().Args {
+			if s, ok := constString(a); ok && s == marker {
+				return true
+			}
+		}
+		return false
+	}
+	pl := p.SSAFunc(p.Method("boltz", "TypedBucket", "PutList"))
+	c.Analysed(FnName(pl))
+	fi := ComputeFacts(pl)
+	var wr ssa.CallInstruction
+	for _, call := range callsIn(pl) {
+		if cal, _ := calleeOf(call.Common()); cal != nil && strings.HasPrefix(cal.Name(), "SetInt") && hasMarkerArg(call) {
+			wr = call
+		}
+	}
+	ok := wr != nil
+	if ok {
+		// written on every path that emptied the bucket successfully: not inside the element loop, not under a length test
+		if innermostLoop(loopsOf(pl), wr.Block()) != nil {
+			ok = false
+		}
+		if fi.HoldsWhere(wr.Block(), func(f Fact) bool {
+			bo, isB := f.V.(*ssa.BinOp)
+			if !isB {
+				return false
+			}
+			_, xl := bo.X.(*ssa.Call)
+			return xl && (bo.Op == token.GTR || bo.Op == token.NEQ)
+		}) {
+			ok = false
+		}
+	}
+	c.Check(ok, "C13.LISTMARK", FnName(pl), p.Pos(pl.Pos()), "the list-size marker is written unconditionally (also for an empty list)", "the list-size marker is not always written: an empty list would read back as a map")
+	gm := p.SSAFunc(p.Method("boltz", "TypedBucket", "getMarshaled"))
+	c.Analysed(FnName(gm))
+	fi2 := ComputeFacts(gm)
+	getList := p.Method("boltz", "TypedBucket", "GetList")
+	okR := false
+	for _, call := range callsIn(gm) {
+		if isCallTo(call, getList) {
+			okR = fi2.HoldsWhere(call.Block(), func(f Fact) bool {
+				k, isCall := f.V.(*ssa.Call)
+				return f.Kind == "nonnil" && f.Pol && isCall && hasMarkerArg(k)
+			})
+		}
+	}
+	c.Check(okR, "C13.LISTMARK", FnName(gm), p.Pos(gm.Pos()), "a nested bucket is read as a list exactly when the size marker is present", "the list/map distinction does not test the PRESENCE of the size marker (e.g. tests its value): an empty nested list reads back as a map containing the marker key")
 }
 
 // ---- WIDTH -----------------------------------------------------------------------------------
@@ -85,7 +143,9 @@ func codecCall(in ssa.Instruction) (name, order string, args []ssa.Value, ok boo
 	return cal.Name(), order, args, true
 }
 
-func ruleC13Width(c *Ctx) {
+func ruleC13Width(c *Ctx) { ruleDecodeWidth(c, "C13.WIDTH") }
+
+func ruleDecodeWidth(c *Ctx, rule string) {
 	p := c.P
 	fieldType := p.Named("boltz", "FieldType")
 	tagName := map[int64]string{}
@@ -340,7 +400,7 @@ func ruleC13Width(c *Ctx) {
 			entries = append(entries, fn)
 		}
 	}
-	c.Note(fmt.Sprintf("C13.WIDTH: %d writer rows, %d codec read sites, %d tag-dispatching functions", len(writers), len(siteOf), len(entries)))
+	c.Note(fmt.Sprintf("%s: %d writer rows, %d codec read sites, %d tag-dispatching functions", rule, len(writers), len(siteOf), len(entries)))
 	sort.Slice(writers, func(i, j int) bool { return FnName(writers[i].fn) < FnName(writers[j].fn) })
 	pair := map[string]string{"PutUint16": "Uint16", "PutUint32": "Uint32", "PutUint64": "Uint64", "byte": "byte"}
 	for _, w := range writers {
@@ -353,7 +413,7 @@ func ruleC13Width(c *Ctx) {
 				for r := range acc.bytes {
 					nReaders++
 					construct := fmt.Sprintf("%s writes %s -> read by %s via %s", FnName(w.fn), tagName[w.tag], FnName(r), FnName(e))
-					c.Check(w.width >= 1 && w.offset == 1, "C13.WIDTH", construct, c.P.Pos(w.fn.Pos()), "one payload byte at offset 1, read as byte 0 of the value", "bool payload is not a single byte at offset 1")
+					c.Check(w.width >= 1 && w.offset == 1, rule, construct, c.P.Pos(w.fn.Pos()), "one payload byte at offset 1, read as byte 0 of the value", "bool payload is not a single byte at offset 1")
 				}
 				continue
 			}
@@ -361,16 +421,16 @@ func ruleC13Width(c *Ctx) {
 				nReaders++
 				construct := fmt.Sprintf("%s writes %s -> read by %s via %s", FnName(w.fn), tagName[w.tag], FnName(rs.fn), FnName(e))
 				ok := pair[w.codec] == rs.codec && rs.width == w.width && w.order == rs.order && w.offset == 1 && rs.convOK
-				c.Check(ok, "C13.WIDTH", construct, c.P.Pos(rs.call.Pos()),
+				c.Check(ok, rule, construct, c.P.Pos(rs.call.Pos()),
 					fmt.Sprintf("payload %d byte(s) at offset 1, %s/%s, order %s on both sides, width-preserving first conversion", w.width, w.codec, rs.codec, w.order),
 					fmt.Sprintf("writer: %d payload byte(s) at offset %d via %s (%s); reader requires %d byte(s) via %s (%s) %s: the value does not read back (width, codec, byte order or sign is lost)", w.width, w.offset, w.codec, w.order, rs.width, rs.codec, rs.order, rs.conv))
 			}
 		}
 		if nReaders == 0 {
-			c.Bad("C13.WIDTH", FnName(w.fn)+" writes "+tagName[w.tag], c.P.Pos(w.fn.Pos()), "no reader is reached under this tag: the value cannot be read back")
+			c.Bad(rule, FnName(w.fn)+" writes "+tagName[w.tag], c.P.Pos(w.fn.Pos()), "no reader is reached under this tag: the value cannot be read back")
 		}
 	}
-	c.Floor("C13.WIDTH", 6)
+	c.Floor(rule, 6)
 }
 
 func passesTag(call *ssa.Call, fieldType *types.Named) bool {
@@ -684,6 +744,35 @@ func ruleC13Codec(c *Ctx) {
 			}
 		}
 		return false
+	}
+	// the encoder's buffer has room for the longest length prefix the bound allows, and the payload
+	// is appended in full
+	{
+		need := int64(1)
+		for v := maxK; v >= 0x80; v >>= 7 {
+			need++
+		}
+		okBuf, whyBuf := false, "no make([]byte, k+len(value)) buffer found"
+		for _, b := range enc.Blocks {
+			for _, in := range b.Instrs {
+				ms, isMS := in.(*ssa.MakeSlice)
+				if !isMS {
+					continue
+				}
+				if bo, isB := ms.Len.(*ssa.BinOp); isB && bo.Op == token.ADD {
+					for _, pair := range [][2]ssa.Value{{bo.X, bo.Y}, {bo.Y, bo.X}} {
+						if k, isK := pair[0].(*ssa.Const); isK && k.Value != nil {
+							if n, _ := constant.Int64Val(k.Value); n >= need {
+								okBuf = true
+							} else {
+								whyBuf = fmt.Sprintf("the buffer reserves %d byte(s) for the length prefix but values up to MaxLinkedSetKeySize=%d need %d: the tail of long components is cut off", n, maxK, need)
+							}
+						}
+					}
+				}
+			}
+		}
+		c.Check(okBuf, "C13.CODEC", "boltz.EncodeByteSlice: prefix room", p.Pos(enc.Pos()), fmt.Sprintf("the buffer reserves at least %d byte(s) for the uvarint length prefix", need), whyBuf)
 	}
 	c.Check(hasCall(enc, "encoding/binary", "PutUvarint") && hasCall(dec, "encoding/binary", "Uvarint"), "C13.CODEC", "boltz compound key: varint pair", p.Pos(enc.Pos()), "encoder writes the length with PutUvarint, decoder reads it with Uvarint", "length prefix encoder/decoder primitives do not match")
 	c.Check(boundUsed(enc) && boundUsed(dec), "C13.CODEC", "boltz compound key: shared bound", p.Pos(dec.Pos()), "both sides compare against MaxLinkedSetKeySize", "encoder and decoder do not enforce the same MaxLinkedSetKeySize bound")
